@@ -31,7 +31,8 @@ def sh(cmd, cwd=None, env=None, timeout=7200):
 def run_checks(props, tier, seed, extra_env, ran):
     for p in props:
         t0 = time.time()
-        env = dict(os.environ, VERIF_SEED=str(seed), **extra_env)
+        # regression replays off: what is measured is the generated search, not the memory of old bugs
+        env = dict(os.environ, VERIF_SEED=str(seed), VF_NO_REGRESS="1", **extra_env)
         rc, out = sh(f"./check {p} --tier {tier}", cwd=VERIF, env=env)
         lines = out.splitlines()
         viol = [l for l in lines if l.startswith("VIOLATION")]
@@ -109,7 +110,8 @@ def main():
             ran["how"] = "git -C /repo apply; ./check; git -C /repo checkout -- ."
         else:
             run_checks(props, a.tier, a.seed, {"VF_REPO": wt, "VF_OUT": out}, ran)
-            ran["how"] = "scratch worktree of /repo with the patch applied, VF_REPO=<worktree> ./check <id>"
+            ran["how"] = ("scratch worktree of /repo with the patch applied, VF_REPO=<worktree> VF_NO_REGRESS=1 "
+                          "./check <id> (regression replays switched off: only the generated search is judged)")
     finally:
         sh(f"git -C /repo worktree remove --force {wt}")
         shutil.rmtree(out, ignore_errors=True)
